@@ -326,7 +326,21 @@ func classify(j *job, r result) []string {
 }
 
 var reHugeInt = regexp.MustCompile(`\d{10,}`)
+var reUnconditionalJoin = regexp.MustCompile("(?i)\\bFROM\\s+[^\\s,]+(\\s+\\w+)?\\s*,|CROSS\\s+JOIN")
 var reLargeQuantity = regexp.MustCompile(`\d{7,}|\d[eE]\+?\d{1,3}\b`)
+
+// tagKind: the first tag of the job without its value part ("grammar:delimiter-positions s[]" → "grammar:delimiter-positions"),
+// so that one defect reached with several values keeps one law name.
+func tagKind(j *job) string {
+	if len(j.Tags) == 0 {
+		return j.Group
+	}
+	t := j.Tags[0]
+	if i := strings.IndexByte(t, ' '); i > 0 {
+		t = t[:i]
+	}
+	return t
+}
 
 // hugeRequest: the job itself names a large quantity (a number of 7+ digits, an exponent, a very long argument)
 // or feeds csvq more than 32 KB: running out of 3 GB is then no evidence of a defect.
@@ -337,6 +351,16 @@ func hugeRequest(j *job) bool {
 		}
 	}
 	if len(j.Stdin) > 32<<10 {
+		return true
+	}
+	// a join without a condition squares the input: 5000 rows are 25 million records before LIMIT applies
+	data := len(j.Stdin)
+	for _, f := range j.Files {
+		if f.Kind == "" && len(f.Data) > data && j.Group == "data" {
+			data = len(f.Data)
+		}
+	}
+	if data > 1<<10 && reUnconditionalJoin.MatchString(j.program()) {
 		return true
 	}
 	for _, f := range j.Files {
@@ -357,11 +381,7 @@ func judge(j *job, r result) (laws []string, notes []string) {
 			return nil, []string{"observed:out_of_memory_under_the_harness_limit(not a law)", "observed_oom:" + trunc(shJoin(j.argv()), 140)}
 		}
 		// 3 GB for a small program over small data that names no large quantity: unbounded growth
-		t := j.Group
-		if len(j.Tags) > 0 {
-			t = j.Tags[0]
-		}
-		return []string{"memory:unbounded_growth:" + t}, nil
+		return []string{"memory:unbounded_growth:" + tagKind(j)}, nil
 	}
 	if r.timedOut {
 		if j.BlockOK {
@@ -372,11 +392,7 @@ func judge(j *job, r result) (laws []string, notes []string) {
 		case reHugeFrame.MatchString(prog):
 			laws = append(laws, "hang:window_frame_huge_offset")
 		default:
-			t := j.Group
-			if len(j.Tags) > 0 {
-				t = j.Tags[0]
-			}
-			laws = append(laws, "hang:"+t)
+			laws = append(laws, "hang:"+tagKind(j))
 		}
 	}
 	raw := strings.Contains(out, "panic:") || strings.Contains(out, "goroutine ") && strings.Contains(out, "[running]") ||
@@ -964,6 +980,9 @@ func run(seed int64, n int, dir string, _ []string) {
 				tries = 6 // which worker panics second depends on the schedule
 			}
 			budget := 300
+			if strings.HasPrefix(l, "memory:") {
+				budget = 6 // every run fills the address-space limit first
+			}
 			isHang := strings.HasPrefix(l, "hang:")
 			if isHang {
 				// first make sure it is not merely slow under the load of the parallel phase: once more, with the full bound
